@@ -28,6 +28,7 @@ OutDone == oi = Len(W.out)
 Match(r, x) ==
     /\ r.e = x.e /\ r.id = x.id /\ r.a = x.a /\ r.x = x.x
     /\ x.e = "handler_in" => r.pending = x.ids
+    /\ x.e = "error" => r.n = x.n          \* which error handler (generation) was called
 
 Choices == IF Timed THEN {"auto"} ELSE {"wait", "enter"}
 
@@ -38,7 +39,8 @@ EvsFrom(ks) ==
     [i \in {ks[j].id : j \in DOMAIN ks} |->
         LET k == CHOOSE k \in {ks[j] : j \in DOMAIN ks} : k.id = i
         IN  [prio |-> k.prio, verdict |-> k.verdict, empty |-> k.empty, hold |-> k.hold,
-             act |-> k.act, arg |-> k.arg, onerr |-> k.onerr]]
+             act |-> k.act, arg |-> k.arg, onerr |-> k.onerr,
+             errhold |-> IF "errhold" \in DOMAIN k THEN k.errhold ELSE 0]]
 
 TraceInit ==
     /\ l = 1 /\ oi = 0 /\ mainSeen = FALSE
